@@ -23,7 +23,8 @@ CLAIMED = {
              "Raw level: the statement-by-statement transcription of set/delete end to end (HexRaw.rawOp: root fetch, _set/_delete over "
              "raw nodes and the database, root store) threaded over a whole history returns the executor's root hashes and a database "
              "answering every lookup alike (Raw.history_is_world_run), and the database-level get on that root and database returns the "
-             "map model's value for every key (Raw.history_get): C01 end to end over transcriptions one statement away from the code. "
+             "map model's value for every key (Raw.history_get): C01 end to end over transcriptions one statement away from the code; the "
+             "same for the database a PRUNING trie leaves behind (Raw.pruned_db_get). "
              "Tie: get() after every operation of generated histories (4 configurations) equals the model's; the raw-level run is "
              "driven alongside fresh non-pruning tries (root after every op, final database, lookups).",
         technique="Lean 4 proof (induction over histories on a tree model) + correspondence check of model vs code",
@@ -70,7 +71,11 @@ CLAIMED = {
              "the invariant over the would-be-committed view is established on entry, preserved by every batch operation and turned "
              "into the plain invariant by a normal exit (C05.batch_begin_invariant / batch_op_invariant / batch_commit_exact); an "
              "aborted block restores the world (C05.abort_restores_world). The raw-level transcription of the write path refines the "
-             "effect layer (Raw.set_refines / delete_refines). Tie: exact key set, counts, regenerate_ref_count after every operation.",
+             "effect layer (Raw.set_refines / delete_refines). Bodies, not only keys: under the run-level no-collision predicate the "
+             "pruned database is complete for the current root - every live node stored with its encoding - after every operation "
+             "and history (Raw.prune_op_keeps_complete, pruned_db_complete), hence the raw-level reader (get over rlp-decoded nodes "
+             "fetched from the pruned database) returns the map model's value for every key (Raw.pruned_db_get). Tie: exact key set, "
+             "counts, regenerate_ref_count after every operation; the raw-level reader on the model's pruned database after every op.",
         technique="Lean 4 proof (structural induction, balance invariant) + correspondence check",
         design_ref="6/C06"),
     "C03": dict(
